@@ -16,9 +16,9 @@ TECHNIQUE = ('differential + metamorphic runtime monitors on generated acyclic r
 RULE = ('cases = acyclic rule sets over <= 8 names (acyclic including the undefined->default edge): random expression '
         'bodies mixing role checks, recording checks and rule: references; dedicated shapes: alias chains to depth 8, '
         'diamonds, references under not/and/or, undefined references; with and without a default rule (option default name, constructor name, '
-        'constructor check object); every rule enforced under all 16 subsets of 4 roles; stratum `redefinition`: some rules are redefined under the living enforcer (merge, store update, item assignment, overwrite) and everything is re-decided against the new definitions. Stratum `overlap`: two requests enforce two policies of one rule set at the same time (second one runs at sampled line boundaries of the first, deterministic scheduler); decisions and the policy name told to nested checks must be those of each request alone; besides the pre-empt/run/finish schedule, both requests are held in flight at once (first one pre-empted, second one pre-empted before it ends, first one finishes, second one finishes) over a grid of boundary pairs; part of the overlap cases are rule sets in which one name (defined, an alias or undefined) is referenced at least twice under one and/or (diamonds, `rule:x and (... or rule:x)`, flat repeats; both requests on the same policy or on two policies) with role sets that make that name decide differently for the two requests. Stratum `late-default`: the rule set of a living enforcer lacks the default rule whose name is configured (option or constructor); after a first round of decisions the default rule is defined later (merge without overwrite, store update, item assignment, a default registered in code for a file-backed enforcer before or after its first load, a file dropped into a policy directory, the policy file rewritten) and every rule incl. undefined references (plain, under not, nested) and an unknown policy name is re-decided against the reference with the default rule now usable. Stratum `checker-tool`: the same rule sets written to a file and decided by the console checker (its own stand-in enforcer), incl. an unknown policy name. Non-trivial = the '
+        'constructor check object); every rule enforced under all 16 subsets of 4 roles; stratum `redefinition`: some rules are redefined under the living enforcer (merge, store update, item assignment, overwrite) and everything is re-decided against the new definitions. Stratum `overlap`: two requests enforce two policies of one rule set at the same time (second one runs at sampled line boundaries of the first, deterministic scheduler); decisions and the policy name told to nested checks must be those of each request alone; besides the pre-empt/run/finish schedule, both requests are held in flight at once (first one pre-empted, second one pre-empted before it ends, first one finishes, second one finishes) over a grid of boundary pairs; part of the overlap cases are rule sets in which one name (defined, an alias or undefined) is referenced at least twice under one and/or (diamonds, `rule:x and (... or rule:x)`, flat repeats; both requests on the same policy or on two policies) with role sets that make that name decide differently for the two requests. Stratum `late-default`: the rule set of a living enforcer lacks the default rule whose name is configured (option or constructor); after a first round of decisions the default rule is defined later (merge without overwrite, store update, item assignment, a default registered in code for a file-backed enforcer before or after its first load, a file dropped into a policy directory, the policy file rewritten) and every rule incl. undefined references (plain, under not, nested) and an unknown policy name is re-decided against the reference with the default rule now usable. Stratum `checker-tool`: the same rule sets written to a file and decided by the console checker (its own stand-in enforcer), incl. an unknown policy name. Stratum `overlap-reinstall` (part of the overlap runs): while one request decides a policy that goes through one or more references, the SAME rules (identical texts, same default rule) are installed again on the living enforcer - Enforcer.set_rules with a freshly parsed Rules object, with and without overwrite, a forced reload of the policy file, or the policy file re-saved with identical content and re-read by a second request; no definition changes, so the decision must be that of the reference evaluator at every pre-emption point of either operation (either one pre-empted with the other run to its end in between, and both in flight). Stratum `redefinition` also keeps the Rules object of the living enforcer, installs another rule set, re-installs the kept object (with and without overwrite) and re-decides everything against the kept set. Stratum `check-object`: the same rule sets, with an additional recording check kind whose DECISION depends on the policy name it is told, are enforced by passing the parsed check tree of each policy to enforce() instead of its name: decisions must be those of the reference evaluator (name-dependent leaves evaluated with what a check object enforced directly is told - found out with a bare probe, not demanded), no nested check may be told the name of an alias, and the tree with a reference and the tree with that reference inlined must decide alike AND tell the nested checks the same. Non-trivial = the '
         'rule set contains at least one rule: reference reached from the enforced rule; distinct = distinct rule set.')
-ASSUMPTIONS = ['role:/@/! leaves evaluate as C01/C04 state', 'the harness registers two private check kinds and removes them afterwards']
+ASSUMPTIONS = ['role:/@/! leaves evaluate as C01/C04 state', 'the harness registers private check kinds (pvrec, pvrec3, pvrec4, pvwho) and removes them afterwards']
 LEVEL_TEXT = ('Seeded sampling of acyclic reference graphs with targeted shapes (chains, diamonds, undefined references), '
               'each decided under all role subsets by the real enforcer and compared with reference expansion and with '
               'its own inlined variant; alias transparency is a property of infinitely many graphs, so structured sampling is the level.')
@@ -28,7 +28,10 @@ MIN = {'overlapping_evaluations': 200, 'evaluations': 300, 'reference_decisions'
        'undefined_reference_decisions': 100, 'three_arg_calls': 100, 'redefinition_decisions': 2000, 'unknown_name_direct_decisions': 1000, 'checker_tool_decisions': 500,
        'checker_tool_undefined_reference_decisions': 50,
        'overlap_repeated_reference_cases': 12, 'overlap_pairs_where_the_repeated_reference_decides_differently': 8, 'interleaved_evaluations': 400,
-       'late_default_decisions': 5000, 'late_default_undefined_reference_decisions': 1000, 'late_default_file_backed_cases': 20}
+       'late_default_decisions': 5000, 'late_default_undefined_reference_decisions': 1000, 'late_default_file_backed_cases': 20,
+       'kept_store_reinstall_decisions': 3000, 'check_object_decisions': 5000, 'check_object_inlined_comparisons': 1000,
+       'check_object_current_rule_observations': 2000, 'check_object_name_dependent_calls': 1000,
+       'reinstall_overlap_cases': 12, 'reinstall_overlap_evaluations': 300, 'reinstall_overlap_file_backed_cases': 4}
 ANCHORS = ['oslo_policy._checks:RuleCheck.__call__', 'oslo_policy._checks:_check', 'oslo_policy.policy:Rules.__missing__',
            'oslo_policy.policy:Enforcer.enforce']
 REQUIRED_ANCHORS = ['oslo_policy.policy:Enforcer.enforce']
@@ -36,6 +39,8 @@ N = {'quick': 2000, 'thorough': 200000}
 OVERLAPS = {'quick': 10, 'thorough': 200}
 OVERLAPS_REPEATED = {'quick': 10, 'thorough': 32}       # per shard; aimed overlap cases (repeated reference)
 OVERLAP_GRID = {'quick': [3, 4], 'thorough': [2, 3]}      # both-in-flight schedules per random overlap case
+REINSTALLS = {'quick': 9, 'thorough': 27}                # per shard; overlap cases in which identical rules are installed again
+REINSTALL_HOWS = ['overwrite', 'file-resaved', 'overwrite', 'merge', 'file-force-reload', 'overwrite', 'overwrite', 'overwrite', 'overwrite']
 LATE_EVERY = {'quick': 6, 'thorough': 64}                 # every n-th rule set also goes through stratum late-default
 
 ROLES = ['a', 'b', 'c', 'd']
@@ -43,6 +48,7 @@ SUBSETS = [[r for i, r in enumerate(ROLES) if m >> i & 1] for m in range(16)]
 SEEN = []          # (kind, current_rule) observed by the recording checks
 WRONG = []         # (policy being enforced by this request, current_rule received) - overlap stratum: requests carry their policy name
 CALLS3 = [0]
+WHO = [0]          # calls of the name-dependent check kind
 
 
 def install_kinds():
@@ -66,13 +72,22 @@ def install_kinds():
             if creds.get('pv_expect') not in (None, rule_name):
                 WRONG.append([creds['pv_expect'], rule_name])
             return self.match in creds['roles']
+    class Who(_checks.Check):
+        """A check whose DECISION depends on the policy name it is told: allows iff it is told no name or the configured one."""
+        def __call__(self, target, creds, enforcer, current_rule=None):
+            SEEN.append(current_rule)
+            WHO[0] += 1
+            if creds.get('pv_expect') not in (None, current_rule):
+                WRONG.append([creds['pv_expect'], current_rule])
+            return current_rule is None or current_rule == self.match
+    env.register_kind('pvwho', Who)
     env.register_kind('pvrec', Rec)
     env.register_kind('pvrec3', Rec3)
     env.register_kind('pvrec4', Rec4)
 
 
 def remove_kinds():
-    for k in ('pvrec', 'pvrec3', 'pvrec4'):
+    for k in ('pvrec', 'pvrec3', 'pvrec4', 'pvwho'):
         env.unregister_kind(k)
 
 
@@ -509,9 +524,9 @@ def check_redefinition(ctx, case):
     enf = build(policy, case, texts)
     ctx.case(['redef', texts, case['redefine'], case['how']], nontrivial=True, stratum='redefinition')
 
-    def table(cur):
+    def table(cur, also=None, subsets=SUBSETS):
         for nm in cur:
-            for roles in SUBSETS:
+            for roles in subsets:
                 stats = {'object_default': case['default_mode'] == 'ctor-object'}
                 want = ev(cur[nm], cur, default, roles, stats)
                 try:
@@ -519,6 +534,8 @@ def check_redefinition(ctx, case):
                 except Exception as e:
                     got = 'EXC:' + type(e).__name__
                 ctx.count('redefinition_decisions')
+                if also:
+                    ctx.count(also)
                 if got != want:
                     return nm, roles, want, got
         return None
@@ -538,6 +555,31 @@ def check_redefinition(ctx, case):
             del enf.rules[victim]
         except KeyError:
             pass
+    elif how in ('reinstall-kept', 'reinstall-kept-merge'):
+        # the caller keeps the Rules object of the living enforcer, installs another rule set (the redefined one), then
+        # installs the kept object again: the kept definitions are the current ones again
+        kept = enf.rules
+        kept_texts_before = sorted(str(k) for k in kept)
+        enf.set_rules(policy.Rules.from_dict({k: text_of(v) for k, v in cur.items()}, enf.default_rule))
+        # while the other rule set is installed: a few decisions only (route `overwrite` of this stratum looks at all of them)
+        bad = table(cur, None, ctx.sub_rnd('kept', repr(sorted(texts.items()))).sample(SUBSETS, 2))
+        if bad:
+            nm, roles, want, got = bad
+            ctx.violation('reference-follows-stale-definition', case,
+                          {'rules_before': texts, 'redefined': newtexts, 'how': how, 'step': 'after installing the other rule set',
+                           'enforced': nm, 'roles': roles, 'expected': want, 'observed': got})
+            return
+        enf.set_rules(kept, overwrite=(how == 'reinstall-kept'))
+        cur = dict(rules)
+        bad = table(cur, 'kept_store_reinstall_decisions')
+        if bad:
+            nm, roles, want, got = bad
+            ctx.violation('reference-follows-stale-definition', case,
+                          {'rules_before': texts, 'other_rule_set_installed_in_between': newtexts, 'how': how,
+                           'step': 'after installing the kept Rules object again', 'names_in_kept_object_when_kept': kept_texts_before,
+                           'names_in_kept_object_now': sorted(str(k) for k in kept),
+                           'enforced': nm, 'roles': roles, 'expected': want, 'observed': got})
+        return
     elif how == 'merge':
         enf.set_rules(policy.Rules.from_dict(newtexts), overwrite=False)
     elif how == 'update':
@@ -553,6 +595,352 @@ def check_redefinition(ctx, case):
         ctx.violation('reference-follows-stale-definition', case,
                       {'rules_before': texts, 'redefined': newtexts, 'how': how, 'enforced': nm, 'roles': roles,
                        'expected': want, 'observed': got})
+
+
+RECORDING = ('pvrec:', 'pvrec4:', 'pvwho:')
+
+
+def told(ast, current):
+    """The same body with every name-dependent leaf (pvwho:m) replaced by what it decides when it is told `current`."""
+    t = ast[0]
+    if t == 'text':
+        if ast[1].startswith('pvwho:'):
+            return ('text', '@' if current is None or current == ast[1][6:] else '!')
+        return ast
+    if t == 'ref':
+        return ast
+    if t == 'not':
+        return ('not', told(ast[1], current))
+    return (t, [told(x, current) for x in ast[1]])
+
+
+def leaves_of(ast, acc):
+    t = ast[0]
+    if t == 'text':
+        acc.append(ast[1])
+    elif t == 'not':
+        leaves_of(ast[1], acc)
+    elif t in ('and', 'or'):
+        for x in ast[1]:
+            leaves_of(x, acc)
+    return acc
+
+
+def gen_named(r, case):
+    """From a generated rule set: some leaves become name-dependent checks (pvwho:<a policy name of the set, or another
+    one>), and one rule that is referenced somewhere gets such a check for sure - so that checks which record / decide by
+    the policy name they are told sit below references."""
+    names = sorted(case['rules'])
+    pool = names + names + ['pv-another-policy']
+
+    def leaf():
+        return ('text', 'pvwho:' + r.choice(pool))
+
+    def sub(ast, p):
+        t = ast[0]
+        if t == 'text':
+            return leaf() if r.random() < p else ast
+        if t == 'ref':
+            return ast
+        if t == 'not':
+            return ('not', sub(ast[1], p))
+        return (t, [sub(x, p) for x in ast[1]])
+    rules = {k: sub(fromjson(v), 0.2) for k, v in case['rules'].items()}
+    referenced = sorted({x for a in rules.values() for x in expr.refs(a) if x in rules})
+    if referenced:
+        x = r.choice(referenced)
+        form = r.choice(['and', 'or', 'and-not', 'alone', 'or-not'])
+        if form == 'alone':
+            rules[x] = r.choice([leaf(), ('not', leaf())])
+        elif form in ('and', 'or'):
+            rules[x] = (form, [rules[x], leaf()] if r.random() < 0.5 else [leaf(), rules[x]])
+        else:
+            rules[x] = (form[:-4], [('not', leaf()), rules[x]])
+    return dict(case, rules=rules, check_object=True)
+
+
+def check_object(ctx, case):
+    """enforce() is given the parsed check tree of a policy instead of its name.  (ii) Decisions are the reference
+    evaluator's - the name-dependent leaves evaluated with whatever a check object enforced directly is told (found out with
+    a bare probe; the statement does not fix it) - and by name they are the reference's with the enforced name; no nested
+    check is told the name of an alias.  (i) The tree with a reference and the tree with that reference inlined decide alike
+    and tell the nested checks the same."""
+    from oslo_policy import policy
+    from pv.mon import overlap
+    rules = {k: fromjson(v) for k, v in case['rules'].items()}
+    default = case['default']
+    texts = {k: text_of(v) for k, v in rules.items()}
+    enf = build(policy, case, texts)
+    objdef = {'object_default': case['default_mode'] == 'ctor-object'}
+    aliases = {x for a in rules.values() for x in expr.refs(a)}
+    ctx.case(['check-object', texts], nontrivial=bool(aliases), stratum='check-object')
+    # what is a check told when a check object is enforced directly?  found out, not demanded
+    del SEEN[:]
+    try:
+        enf.enforce(policy.RuleDefault('pv:probe', 'pvrec:a').check, {}, {'roles': []})
+    except Exception:
+        pass
+    top = SEEN[0] if SEEN else None
+    ctx.observe('told_when_a_check_object_is_enforced', repr(top))
+    if top is not None:
+        ctx.unconstrained('a-check-object-enforced-directly-is-told-something')
+    trees = policy.Rules.from_dict(texts)            # parsed on their own: not the objects in the enforcer's store
+    by_tree = {k: told(v, top) for k, v in rules.items()}
+    some = ctx.sub_rnd('by-name', repr(sorted(texts.items()))).sample(SUBSETS, 4)
+    stop = False
+    for nm in rules:
+        by_name = {k: told(v, nm) for k, v in rules.items()}
+        for roles in some:
+            # by name (the name-dependent checks are told the enforced name), a few role sets
+            stats = dict(objdef)
+            want = ev(by_name[nm], by_name, default, roles, stats)
+            del SEEN[:]
+            got = overlap.outcome(lambda: enf.enforce(nm, {}, {'roles': list(roles)}))
+            ctx.count('check_object_by_name_decisions')
+            if got != ['returned', want]:
+                ctx.violation('undefined-reference-not-like-unknown-policy' if stats.get('undefined') else 'alias-not-transparent', case,
+                              {'rules': texts, 'default': default, 'enforced': nm, 'roles': roles, 'expected': want, 'observed': got})
+                return
+            wrong = [c for c in SEEN if c != nm]
+            if wrong:
+                ctx.violation('nested-check-told-wrong-policy-name', case, {'rules': texts, 'enforced': nm, 'current_rule_seen': wrong[:3]})
+                return
+        for roles in SUBSETS:
+            # the same policy, handed over as a check tree
+            stats = dict(objdef)
+            want = ev(by_tree[nm], by_tree, default, roles, stats)
+            del SEEN[:]
+            WHO[0] = 0
+            got = overlap.outcome(lambda: enf.enforce(trees[nm], {}, {'roles': list(roles)}))
+            seen = list(SEEN)
+            ctx.count('check_object_decisions')
+            ctx.count('check_object_current_rule_observations', len(seen))
+            if stats.get('refs'):
+                ctx.count('check_object_name_dependent_calls', WHO[0])
+            found = False
+            alias = [c for c in seen if isinstance(c, str) and c in aliases and c != top]
+            if alias:
+                ctx.violation('nested-check-told-the-alias-when-a-check-object-is-enforced', case,
+                              {'rules': texts, 'enforced_check_tree_of': nm, 'text': texts[nm], 'roles': roles, 'told': seen[:6],
+                               'names_of_aliases_told': sorted(set(alias)), 'told_without_any_reference': repr(top)})
+                found = True
+            elif any(not (c is top or c == top) for c in seen):
+                # told something that is neither what the probe was told nor an alias: the statement leaves it open
+                ctx.unconstrained('check-object-enforced-nested-checks-told-something-else')
+                continue
+            if got != ['returned', want]:
+                ctx.violation('check-object-not-decided-like-its-definitions', case,
+                              {'rules': texts, 'default': default, 'enforced_check_tree_of': nm, 'text': texts[nm], 'roles': roles,
+                               'expected': want, 'observed': got, 'told': seen[:6], 'told_without_any_reference': repr(top)})
+                found = True
+            if found:
+                stop = True
+                break
+        if stop:
+            break
+    # (i) one reference inlined, both forms enforced as check trees
+    def records_below(x, seen_names=()):
+        if x not in rules or x in seen_names:
+            return False
+        if any(l.startswith(RECORDING) for l in leaves_of(rules[x], [])):
+            return True
+        return any(records_below(y, tuple(seen_names) + (x,)) for y in expr.refs(rules[x]))
+    cands = sorted((nm, x) for nm in rules for x in set(expr.refs(rules[nm])) if x in rules)
+    good = [c for c in cands if records_below(c[1])]
+    vr = ctx.sub_rnd('inline-object', repr(sorted(texts.items())))
+    picked = vr.sample(good, min(2, len(good))) if good else (vr.sample(cands, 1) if cands else [])
+    for nm, x in picked:
+        inlined = text_of(rules[nm], (x, rules[x]))
+        t_ref = policy.RuleDefault('pv:with-reference', texts[nm]).check
+        t_inl = policy.RuleDefault('pv:inlined', inlined).check
+        for roles in SUBSETS:
+            del SEEN[:]
+            a = overlap.outcome(lambda: enf.enforce(t_ref, {}, {'roles': list(roles)}))
+            sa = list(SEEN)
+            del SEEN[:]
+            b = overlap.outcome(lambda: enf.enforce(t_inl, {}, {'roles': list(roles)}))
+            sb = list(SEEN)
+            ctx.count('check_object_inlined_comparisons')
+            ctx.count('check_object_current_rule_observations', len(sa) + len(sb))
+            detail = {'rules': texts, 'with_reference': texts[nm], 'inlined_reference': x, 'inlined_text': inlined, 'roles': roles,
+                      'enforced_as': 'check trees (parsed with RuleDefault)'}
+            if a != b:
+                ctx.violation('inlining-changes-decision', case, dict(detail, decided_with_reference=a, decided_inlined=b, told_with_reference=sa[:6], told_inlined=sb[:6]))
+            # the VALUES told must be the same in both forms (how often a nested check is called is not part of the statement)
+            differ = [c for c in sa if c not in sb and not (c is top or c == top)] + [c for c in sb if c not in sa and not (c is top or c == top)]
+            if differ:
+                ctx.violation('inlining-changes-the-policy-name-told-to-nested-checks', case,
+                              dict(detail, told_with_reference=sa[:8], told_inlined=sb[:8], told_in_one_form_only=differ[:4], told_without_any_reference=repr(top)))
+            if a != b or differ:
+                return
+
+
+def ctor_kw(case):
+    kw = {}
+    if case['default_mode'] == 'ctor-name':
+        kw['default_rule'] = case['default']
+    if case['default_mode'] == 'ctor-object':
+        from oslo_policy import _checks
+        kw['default_rule'] = _checks.RoleCheck('role', 'a')
+    return kw
+
+
+def aimed(points, n, limit, rnd):
+    """Pre-emption points of one operation: all of them when there are at most `limit`; otherwise the stretch during which
+    the public Enforcer.set_rules runs (plus the few lines after it; thinned out when that is too many) and
+    boundaries spread over the whole operation."""
+    if n <= limit:
+        return list(range(1, n + 1))
+    hot = [i + 1 for i, p in enumerate((points or [])[:n]) if p[2] == 'set_rules']
+    ks = []
+    if hot:
+        ks = list(range(hot[0], min(n, hot[-1] + 6) + 1))
+        keep = max(2, limit * 3 // 4)
+        if len(ks) > keep:
+            ks = rnd.sample(ks, keep)
+    return sorted(set(ks) | set(spread(n, max(2, limit - len(ks)), rnd)))
+
+
+def gen_reinstall(r, how, rseed):
+    """A rule set, a policy of it that goes through references and (preferably) a role set for which that policy's decision
+    depends on what its references decide; a second request for the file-backed route."""
+    for attempt in range(20):
+        case = gen_ruleset(r)
+        through = sorted(n for n, a in case['rules'].items() if expr.refs(a))
+        if through:
+            break
+    rules, default = case['rules'], case['default']
+    names = sorted(rules)
+    stats = {'object_default': case['default_mode'] == 'ctor-object'}
+    best = None
+    for attempt in range(24):
+        na, ra = r.choice(through or names), r.choice(SUBSETS)
+        if best is None:
+            best = (na, ra)
+            if r.random() < 0.15:
+                break                                   # some requests with unconstrained role sets
+        never = dict(rules, **{x: ('text', '!') for x in set(expr.refs(rules[na]))})
+        if ev(rules[na], rules, default, ra, dict(stats)) != ev(rules[na], never, default, ra, dict(stats)):
+            best = (na, ra)
+            break
+    return dict(case, reinstall=True, how=how, fmt=r.choice(['json', 'yaml']), a=[best[0], best[1]],
+                b=[r.choice((through or names) + names + ['pv-unknown-policy']), r.choice(SUBSETS)], rseed=rseed)
+
+
+def check_reinstall(ctx, case):
+    """While request A decides a policy that goes through references, operation B installs the SAME rules again on the
+    living enforcer (set_rules with a freshly parsed Rules object - overwrite or merge -, a forced reload of the policy file,
+    or a second request that re-reads the policy file re-saved with identical content).  No definition changes at any time,
+    so A (and B, when it is a request) decides as the reference evaluator says, wherever either one is pre-empted."""
+    from oslo_policy import policy
+    from pv.gen import files
+    from pv.mon import overlap, sched
+    rules = {k: fromjson(v) for k, v in case['rules'].items()}
+    default = case['default']
+    texts = {k: text_of(v) for k, v in rules.items()}
+    how = case['how']
+    (na, ra), (nb, rb) = case['a'], case['b']
+    objdef = {'object_default': case['default_mode'] == 'ctor-object'}
+
+    def ref(nm, roles):
+        return ev(rules[nm] if nm in rules else ('ref', nm), rules, default, roles, dict(objdef))
+    want_a = ['returned', ref(na, ra)]
+    want_b = ['returned', ref(nb, rb)] if how == 'file-resaved' else None
+    ctx.case(['reinstall', texts, how, case.get('fmt'), case['a'], case['b']], True, 'overlap-reinstall')
+    ctx.count('reinstall_overlap_cases')
+    ctx.observe('reinstall_routes', '%s/%s' % (how, case['default_mode']))
+    rnd = ctx.sub_rnd('Ri', case['rseed'])
+    tree = None
+    try:
+        if how.startswith('file'):
+            main = 'policy.' + case['fmt']
+            tree = files.Tree(dirs=(), main=main)
+            tree.write(main, texts, case['fmt'])
+            enf = policy.Enforcer(tree.conf(policy_dirs=[]), **ctor_kw(case))
+            enf.load_rules()
+            ctx.count('reinstall_overlap_file_backed_cases')
+        else:
+            enf = build(policy, case, texts)
+
+        def make_a():
+            c = {'roles': list(ra), 'pv_expect': na}
+            return lambda: overlap.outcome(lambda: enf.enforce(na, {}, c))
+
+        def make_b():
+            if how == 'overwrite':
+                fresh = policy.Rules.from_dict(texts, enf.default_rule)       # parsed outside the overlapped call
+                return lambda: overlap.outcome(lambda: enf.set_rules(fresh))
+            if how == 'merge':
+                fresh = policy.Rules.from_dict(texts, enf.default_rule)
+                return lambda: overlap.outcome(lambda: enf.set_rules(fresh, overwrite=False))
+            if how == 'file-force-reload':
+                return lambda: overlap.outcome(lambda: enf.load_rules(True))
+            c = {'roles': list(rb), 'pv_expect': nb}
+            return lambda: overlap.outcome(lambda: enf.enforce(nb, {}, c))
+        edit = (lambda: tree.write(main, texts, case['fmt'])) if how == 'file-resaved' else (lambda: None)
+
+        def full(plan):
+            """The file is re-saved right before B (the request that re-reads it) starts: A may be anywhere by then."""
+            if how != 'file-resaved':
+                return plan
+            i = [st[0] for st in plan].index('B')
+            return plan[:i] + [['EDIT']] + plan[i:]
+        detail = {'rules': texts, 'default': default, 'default_mode': case['default_mode'], 'identical_rules_installed_again_by': how,
+                  'request_a': case['a'], 'operation_b': case['b'] if how == 'file-resaved' else how,
+                  'expected_a': want_a, 'expected_b': want_b}
+        del WRONG[:]
+
+        def execute(plan, trace=False):
+            whole = full(plan)
+            r = sched.Run({'A': make_a(), 'B': make_b()}, whole, edit, trace_points=trace)
+            res = r.run()
+            ctx.count('reinstall_overlap_evaluations')
+            if len(plan) == 4:
+                ctx.count('reinstall_overlap_evaluations.both_in_flight')
+            where = {n: list(r.stopped_at[n]) for n in r.stopped_at}
+            if res.get('A') != want_a or (want_b is not None and res.get('B') != want_b):
+                ctx.violation('decision-changes-while-identical-rules-are-installed-again', case,
+                              dict(detail, plan=whole, observed_a=res.get('A'), observed_b=res.get('B'), preempted_at=where))
+                return None
+            if WRONG:
+                ctx.violation('nested-check-told-wrong-policy-name', case, dict(detail, plan=whole, enforced_vs_told=WRONG[:3]))
+                del WRONG[:]
+                return None
+            return r
+        r1 = execute([['A', None], ['B', None]], True)
+        r2 = r1 and execute([['B', None], ['A', None]], True)
+        if not r2:
+            return
+        ca1, cb2, pa1, pb2 = r1.counts['A'], r1.counts['B'], r1.points.get('A', []), r1.points.get('B', [])
+        cb1, ca2, pb1 = r2.counts['B'], r2.counts['A'], r2.points.get('B', [])
+        ctx.observe('reinstall_boundaries_of_the_installing_operation', cb1)
+        backed = how.startswith('file')                # a reload has hundreds of boundaries: aim at the stretch that installs
+        lim = case.get('limit', 20 if backed else 12)
+        g = case.get('grid', [1, 14, 2] if backed else [2, 8, 2])
+        # where A stops in the both-in-flight schedules: spread over the whole request, plus moments at which a check object
+        # is being called (the request is past its own load step, inside the evaluation)
+        calls = [i + 1 for i, p in enumerate(pa1[:ca1]) if p[2] == '__call__']
+        ka = sorted(set(spread(ca1, g[0], rnd)) | set(calls[i - 1] for i in spread(len(calls), g[2], rnd)))
+        plans = []
+        for j in aimed(pb1, cb1, lim, rnd):                      # B pre-empted, A decides completely in between
+            plans.append([['B', j], ['A', None], ['B', None]])
+        for k in aimed(pa1, ca1, 6 if backed else lim, rnd):     # A pre-empted, B runs completely in between
+            plans.append([['A', k], ['B', None], ['A', None]])
+        for k in ka:                                             # both in flight: A stops, B starts and stops, A ends, B ends
+            for j in aimed(pb2, cb2, g[1], rnd):
+                plans.append([['A', k], ['B', j], ['A', None], ['B', None]])
+        for j in aimed(pb1, cb1, max(2, g[1] // 2), rnd):        # ... and B stops first
+            for k in spread(ca2, 2, rnd):
+                plans.append([['B', j], ['A', k], ['B', None], ['A', None]])
+        for plan in plans:
+            if not execute(plan):
+                return
+        got = overlap.outcome(lambda: enf.enforce(na, {}, {'roles': list(ra)}))
+        if got != want_a:
+            ctx.violation('alias-not-transparent', case, dict(detail, observed_afterwards=got))
+    finally:
+        if tree:
+            tree.cleanup()
 
 
 LATE_ROUTES_MEMORY = ['merge', 'update', 'setitem']
@@ -679,6 +1067,18 @@ def run(ctx):
                     redefine = {v: gen_body(ctx.rnd, 1, ['role:a', 'role:b', 'role:c', 'role:d', '@', '!', 'pvrec:c']) for v in victims}
                     check_redefinition(ctx, dict(case, redefinition=True, redefine=redefine,
                                                  how=ctx.rnd.choice(['merge', 'update', 'setitem', 'overwrite', 'delete'])))
+            if i % 6 == 1:
+                # keep the Rules object, install the redefined set, install the kept object again (own random stream)
+                kr = ctx.sub_rnd('K', ctx.tier, ctx.shard, i)
+                names = sorted(n for n in case['rules'] if n.startswith('n'))
+                if names:
+                    victims = kr.sample(names, min(len(names), kr.randint(1, 2)))
+                    redefine = {v: gen_body(kr, 1, ['role:a', 'role:b', 'role:c', 'role:d', '@', '!', 'pvrec:c']) for v in victims}
+                    check_redefinition(ctx, dict(case, redefinition=True, redefine=redefine,
+                                                 how=kr.choice(['reinstall-kept', 'reinstall-kept', 'reinstall-kept-merge'])))
+            if i % 4 == 2:
+                # the policies handed to enforce() as parsed check trees, with name-dependent checks below references
+                check_object(ctx, gen_named(ctx.sub_rnd('T', ctx.tier, ctx.shard, i), case))
             if i % 4 == 1:
                 check_tool(ctx, case)
             if i % LATE_EVERY[ctx.tier] == 2:
@@ -696,6 +1096,14 @@ def run(ctx):
         from pv.mon import sched
         ctx.stratum('overlap', exhaustive=False)
         try:
+            # a request through references while the same rules are installed again (first: few cases, and they must not be
+            # starved by the strata below when the budget is short)
+            ctx.stratum('overlap-reinstall', exhaustive=False)
+            for i in range(REINSTALLS[ctx.tier]):
+                if ctx.expired():
+                    break
+                r = ctx.sub_rnd('OS', ctx.tier, ctx.shard, i)
+                check_reinstall(ctx, gen_reinstall(r, REINSTALL_HOWS[(i + ctx.shard) % len(REINSTALL_HOWS)], 'S.%s.%d.%d' % (ctx.tier, ctx.shard, i)))
             for i in range(OVERLAPS[ctx.tier]):
                 if ctx.expired():
                     break
@@ -724,6 +1132,10 @@ def replay(ctx, case):
             return check_overlap(ctx, case)
         if case.get('redefinition'):
             return check_redefinition(ctx, case)
+        if case.get('reinstall'):
+            return check_reinstall(ctx, case)
+        if case.get('check_object'):
+            return check_object(ctx, case)
         if case.get('late_default'):
             return check_late_default(ctx, case)
         if case.get('tool'):
